@@ -76,7 +76,9 @@ impl SubscriptionManager {
                 // have come too early: take it off the topic again, so that the topic is not
                 // left posting to a subscription that is gone.
                 if subscription.deletion_started() {
-                    let _ = topic.remove_subscription(subscription.name.clone()).await;
+                    let _ = topic
+                        .remove_subscription(subscription.name.clone(), subscription.internal_id)
+                        .await;
                     return Err(AttachSubscriptionError::Closed);
                 }
 
